@@ -131,6 +131,7 @@ func check(t interface{ Fatalf(string, ...interface{}) }, name string, p *lp.Pro
 
 func cfg() lp.Cfg {
 	c := lp.DefaultCfg()
+	c.Binary = lp.BinaryBuild // the same property in the binary_log build: the generator then also draws what only CBOR can carry
 	c.Tree = true
 	c.UniqueKeys = true
 	c.MaxOps = 4
